@@ -35,8 +35,9 @@ MANIFEST = {
             "N-/C-terminus, proline N, ligand, water) of a 20-residue hand-built topology with explicit bonds, as the deciding "
             "frame of an n-frame trajectory in which the bond is otherwise present in k frames (all 0<=k<n<=4, deciding frame "
             "first or last) x freq {0,0.1,0.5,1} x exclude_water x sidechain_only x cut-off settings {(0.25,120),(0.3,150),"
-            "(0.2,90)} (thorough: 3x3) x {no cell; cells cubic3, mono110 (thorough + hex60, tric_75_100_115) with every atom "
-            "moved by its own lattice vector; periodic True/False}. wernet_nilsson: {delta: 0,5,20,40,44.5,45.5,50,70,80 deg} x "
+            "(0.2,90)} (thorough: 3x3; quick runs the custom cut-offs with n<=2 frames, freq {0,0.5}, default filters) x {no "
+            "cell; cells cubic3, mono110 (thorough: + hex60, tric_75_100_115 at the default cut-offs) with every atom moved by "
+            "its own lattice vector; periodic True/False; n<=2 frames}. wernet_nilsson: {delta: 0,5,20,40,44.5,45.5,50,70,80 deg} x "
             "{r_DA: cone cut-off*(1+-{1e-3,1e-2,1e-1}), 0.5x, 0.33*(1+-1e-3), 0.5 nm} in 1..3 frames x the same options. "
             "kabsch_sander: residue pairs on {O..H distance ladder around the E=-0.5 root} x {N-H..O angle 180,150,120} x "
             "{C=O..H angle 180,150,120}, three competing acceptors in all 6 energy orders x 4 sequence positions, proline "
@@ -977,8 +978,8 @@ def run_memory_family(ctx_repo, scratch, only=None):
             sig = "kabsch_sander|asan|read-before-xyz|%s" % (cls or name)
             recs.append((sig, "residue list %s (%s): AddressSanitizer: %s" % (kinds, name, text), dict(family="ks-mem", case=name, sig=sig)))
         elif status == "error":
-            recs.append(("kabsch_sander|asan-harness-error", "%s: %s" % (name, text), dict(family="ks-mem", case=name,
-                                                                                       sig="kabsch_sander|asan-harness-error")))
+            # a broken harness is a defect of the check, not of mdtraj: stop instead of reporting or hiding it
+            raise RuntimeError("check error: ASan harness failed on case %s: %s" % (name, text))
     return recs, counts
 
 
@@ -998,7 +999,7 @@ def run(ctx):
             for gi in range(G):
                 items.append(("bh", cut, p, gi, None))
         if default or not quick:
-            for c in cells(quick):
+            for c in cells(quick or not default):      # thorough: 4 cells at the default cut-offs, 2 at the others
                 for p in pats2:
                     for gi in range(G):
                         items.append(("bh", cut, p, gi, c["name"]))
